@@ -179,33 +179,41 @@ inductive Card
   | badRead
   deriving DecidableEq, Repr
 
+/-- an input is a read card when its first word is `READ`; the rest must be `FILE` and a name,
+    where `=` is equivalent to a blank -/
 def cardOf (ws : List Word) : Card :=
-  match ws.flatMap splitEq with
+  match ws with
   | [] => .notRead
   | r :: rest =>
     if lowerEq r "read" then
-      match rest with
+      match rest.flatMap splitEq with
       | [f, n] => if lowerEq f "file" then .read n else .badRead
       | _ => .badRead
     else .notRead
 
-/-- a read card waiting to be served: the block it stood in and the file it names -/
+/-- a read card waiting to be served: the block it stood in, the file it names, and the files that are
+    being read on the way to it (top-level file first, the file holding the card last) -/
 structure Pending where
   block : Nat
   name : Word
+  chain : List (List Char)
   deriving DecidableEq, Repr
 
-def ownInputs : List Inp → List Inp
-  | [] => []
-  | i :: t => match cardOf i.words with
-    | .notRead => i :: ownInputs t
-    | _ => ownInputs t
+inductive SErr
+  /-- an input that begins `READ` but is not `READ FILE=name` -/
+  | badRead
+  /-- the file named is one of the files being read -/
+  | cycle
+  /-- the file named does not exist -/
+  | missing
+  deriving DecidableEq, Repr
 
-def readCards : List Inp → List Pending
-  | [] => []
-  | i :: t => match cardOf i.words with
-    | .read n => ⟨i.block, n⟩ :: readCards t
-    | _ => readCards t
+/-- what reading produces, in order -/
+inductive SOut
+  | inp (i : Inp)
+  | card (p : Pending)
+  | err (e : SErr)
+  deriving DecidableEq, Repr
 
 /-- files as MCNP sees them: a path names a sequence of lines, or nothing -/
 abbrev Files := List Char → Option (List Line)
@@ -219,27 +227,73 @@ def resolveAgainst (top : List Char) (name : Word) : List Char :=
   | '/' :: _ => name
   | _ => dirPrefix top ++ name
 
-/-- one generation of read cards: the inputs of the named files (each in the block of its card, in the order
-    of the cards) followed by the next generation, i.e. the read cards met while reading those files -/
-def flattenGen (limit : Nat) (files : Files) (resolve : Word → List Char) : Nat → List Pending → List Inp
+def outOf (resolve : Word → List Char) (chain : List (List Char)) (i : Inp) : SOut :=
+  match cardOf i.words with
+  | .notRead => .inp i
+  | .badRead => .err .badRead
+  | .read n => if chain.contains (resolve n) then .err .cycle else .card ⟨i.block, n, chain⟩
+
+/-- the inputs and read cards of one file, in order -/
+def fileStream (limit : Nat) (resolve : Word → List Char) (chain : List (List Char)) (start : Nat)
+    (lines : List Line) : List SOut :=
+  (inputsFrom limit start lines).map (outOf resolve chain)
+
+def cards : List SOut → List Pending
+  | [] => []
+  | .card p :: t => p :: cards t
+  | _ :: t => cards t
+
+def inputsOf : List SOut → List Inp
+  | [] => []
+  | .inp i :: t => i :: inputsOf t
+  | _ :: t => inputsOf t
+
+def errorOf : List SOut → Option SErr
+  | [] => none
+  | .err e :: _ => some e
+  | _ :: t => errorOf t
+
+/-- everything up to and including the first error -/
+def cutS : List SOut → List SOut
+  | [] => []
+  | .err e :: _ => [.err e]
+  | o :: t => o :: cutS t
+
+/-- serving one read card: the stream of the file it names, read in the block of the card -/
+def serveS (limit : Nat) (files : Files) (resolve : Word → List Char) (p : Pending) : List SOut :=
+  match files (resolve p.name) with
+  | none => [.err .missing]
+  | some ls => fileStream limit resolve (p.chain ++ [resolve p.name]) p.block ls
+
+/-- one generation of read cards after the other: the files named by the pending cards, in the order of the
+    cards, then the cards met while reading those files -/
+def gensS (limit : Nat) (files : Files) (resolve : Word → List Char) : Nat → List Pending → List SOut
   | 0, _ => []
   | _ + 1, [] => []
   | d + 1, ps =>
-    let each := ps.map (fun p => match files (resolve p.name) with
-      | some ls => inputsFrom limit p.block ls
-      | none => [])
-    each.flatMap ownInputs ++ flattenGen limit files resolve d (each.flatMap readCards)
+    let s := ps.flatMap (serveS limit files resolve)
+    s ++ gensS limit files resolve d (cards s)
 
-/-- **the flattened problem**: the top file's own inputs, then — in the order the read cards are met —
-    the inputs of the files they name, recursively, every card served exactly once.
+structure Flat where
+  message : Option (List Line)
+  title : Option Line
+  outs : List SOut
+  deriving DecidableEq, Repr
+
+/-- **the flattened problem**: the top file's own inputs, then — generation by generation, in the order the
+    read cards are met — the inputs of the files they name, every card served exactly once; reading stops at
+    the first error (a malformed read card, a missing file, a file that reads a file being read).
     `depth` bounds the nesting of read cards that is followed. -/
-def flattenInputs (limit : Nat) (files : Files) (resolve : Word → List Char) (depth : Nat)
-    (main : List Char) : Blocks :=
+def flatten (limit : Nat) (files : Files) (resolve : Word → List Char) (depth : Nat) (main : List Char) : Flat :=
   match files main with
-  | none => ⟨none, none, []⟩
+  | none => ⟨none, none, [.err .missing]⟩
   | some lines =>
     let b := logicalInputs limit lines
-    { b with inputs := ownInputs b.inputs ++ flattenGen limit files resolve depth (readCards b.inputs) }
+    let s := b.inputs.map (outOf resolve [main])
+    ⟨b.message, b.title, cutS (s ++ gensS limit files resolve depth (cards s))⟩
+
+/-- block `k` of the flattened problem: the single-file problem that the property compares with -/
+def Flat.block (f : Flat) (k : Nat) : List (List Word) := ((inputsOf f.outs).filter (·.block = k)).map (·.words)
 
 /-- the inputs of block `k`, in order -/
 def blockOf (k : Nat) (is : List Inp) : List (List Word) := (is.filter (·.block = k)).map (·.words)
